@@ -927,10 +927,16 @@ def run(ctx):
     for _ in range(90 if quick else 900):
         c = rng.choice(pool)
         hcases.append((c, gen_history(c, rng, rng.randrange(2, 9 if quick else 14))))
-    hreqs = [" ".join((["histd", str(c.n), enc_mat(c.res)] if c.adj_from_res
-                       else ["hist", str(c.n), enc_adj(c.A), enc_mat(c.res)])
+    # every second history is answered by the machine whose `__init__` / update methods / matrix
+    # getters are the bodies regenerated from the current source (requests `histp` / `histpd`,
+    # `pyRun`; proved equal to `run`: `pyRun_matches_model`) — the regenerated code itself is
+    # compared with the real object, call by call
+    hreqs = [" ".join(([("histpd" if k % 2 else "histd"), str(c.n), enc_mat(c.res)] if c.adj_from_res
+                       else [("histp" if k % 2 else "hist"), str(c.n), enc_adj(c.A), enc_mat(c.res)])
                       + [enc_op(op) for op in ops])
-             for c, ops in hcases]
+             for k, (c, ops) in enumerate(hcases)]
+    for r in hreqs:
+        ctx.count("history-machine:" + r.split(" ", 1)[0])
     hans = pdriver(ctx.pid, hreqs)
     hbad = []
     nsteps = 0
@@ -1007,8 +1013,9 @@ def reassign_stream(ctx, RN, rng, pool, count):
             ops2 += [("V", c2.n - 1), ("E", 0, c2.n - 1), ("G", c2.n - 1), ("L", c2.n - 1),
                      ("B", c2.n - 1, c2.n - 2)]
         todo.append((c1, ops1, c2, ops2))
-    reqs = [" ".join(["hist", str(c2.n), enc_adj(c2.A), enc_mat(c2.res)] + [enc_op(op) for op in ops2])
-            for c1, ops1, c2, ops2 in todo]
+    reqs = [" ".join([("histp" if k % 2 else "hist"), str(c2.n), enc_adj(c2.A), enc_mat(c2.res)]
+                     + [enc_op(op) for op in ops2])
+            for k, (c1, ops1, c2, ops2) in enumerate(todo)]
     answers = pdriver(ctx.pid, reqs)
     rbad = []
     nsteps = 0
